@@ -121,6 +121,51 @@ fn enc_iter(p: &[u8], extra: usize) -> Result<(Vec<u8>, usize), i64> {
     }
 }
 
+/// A legal but non-fused byte source: yields `p`, then `None` once, then eight more bytes, then `None` for good.
+/// By the `Iterator` protocol the payload is what comes before the first `None`.
+struct Resuming<'a> {
+    p: &'a [u8],
+    i: usize,
+}
+impl<'a> Iterator for Resuming<'a> {
+    type Item = u8;
+    fn next(&mut self) -> Option<u8> {
+        let i = self.i;
+        self.i += 1;
+        if i < self.p.len() {
+            Some(self.p[i])
+        } else if i == self.p.len() || i > self.p.len() + 8 {
+            None
+        } else {
+            Some(0xa0 + (i - self.p.len()) as u8)
+        }
+    }
+}
+/// iterator encoder over the non-fused source
+fn enc_iter_resuming(p: &[u8]) -> Result<Vec<u8>, i64> {
+    match catch_unwind(AssertUnwindSafe(|| {
+        let mut v = vec![];
+        for b in encode_streaming(Resuming { p, i: 0 }) {
+            v.push(b);
+            if v.len() > 2 * p.len() + 64 {
+                return Err(12);
+            }
+        }
+        Ok(v)
+    })) {
+        Ok(r) => r,
+        Err(_) => Err(8),
+    }
+}
+/// buffer encoder over the non-fused source
+fn enc_buf_resuming(p: &[u8]) -> Result<Vec<u8>, i64> {
+    match catch_unwind(AssertUnwindSafe(|| encode::<Vec<u8>>(Resuming { p, i: 0 }))) {
+        Ok(Ok(v)) => Ok(v),
+        Ok(Err(_)) => Err(3),
+        Err(_) => Err(8),
+    }
+}
+
 /// maximal run-length encoding [[byte, count]...]
 pub fn rle(b: &[u8]) -> Vec<Vec<i64>> {
     let mut v: Vec<Vec<i64>> = vec![];
@@ -296,6 +341,10 @@ pub fn cmd_encdec(tier: &str, out: &str, which: &str) {
             // the same through iterators with an inexact size_hint: the result must not depend on the hint
             put(4, enc_buf_vec_iter(p));
             put(5, enc_buf_n_iter(big, p));
+            // the same through a non-fused source that yields more bytes after its first None (ids 6 iterator encoder,
+            // 7 buffer encoder): the payload ends at the first None
+            put(6, enc_iter_resuming(p));
+            put(7, enc_buf_resuming(p));
         }
         // poll the exhausted iterator far beyond any 8-bit (always) or 16-bit (some payloads) internal counter
         let extra_polls = if p.len() % 97 == 3 || p.is_empty() { 70000 } else { 300 };
